@@ -60,6 +60,8 @@ GROUP = [
     ["group_by", [Cn("p")]],
 ]
 GROUP_ADD = [["group_by", [b], True], ["group_by", [g], True]]
+# verbs between group_by and summarize (a filter here acts on the rows, not on the groups)
+MID = [["filter", [["ge", x, lit(1)]]]]
 SUMM = [
     ["summarize", [["a1", ["sum", x]], ["a2", ["count_star"]]]],
     ["summarize", [["a1", ["mean", x]], ["a2", ["count", x]]]],
@@ -97,6 +99,8 @@ def stage(hist):
     n_sum = kinds.count("summarize")
     if n_sum == 0:
         if "group_by" in kinds:
+            if kinds[-1] != "group_by":
+                return "mid"
             return "grouped2" if kinds.count("group_by") > 1 else "grouped"
         return "pre1" if kinds else "start"
     after = kinds[kinds.index("summarize") + 1:]
@@ -116,8 +120,10 @@ def alphabet(st, hist):
     if sg == "pre1":
         return GROUP + SUMM
     if sg == "grouped":
-        return GROUP_ADD + SUMM
+        return GROUP_ADD + MID + SUMM
     if sg == "grouped2":
+        return SUMM
+    if sg == "mid":
         return SUMM
     if sg == "post":
         return POST
@@ -159,10 +165,11 @@ def describe(tier):
         "stages": {
             "pre": [T.py_event(e) for e in PRE],
             "group_by": [T.py_event(e) for e in GROUP + GROUP_ADD],
+            "between_group_by_and_summarize": [T.py_event(e) for e in MID],
             "summarize": [T.py_event(e) for e in SUMM],
             "post": [T.py_event(e) for e in POST + POST2 + POST3],
         },
-        "program_shape": "[pre] [group_by [group_by(add=True)]] summarize [post | alias [group_by] summarize]",
+        "program_shape": "[pre] [group_by [group_by(add=True)] [filter|mutate|arrange]] summarize [post | alias [group_by] summarize]",
         "depth": "up to 7 events (stage-structured)",
         "input_family": f"every table (multiset of rows) with 0..{MAXROWS[tier]} rows over g,x in {{null,1,2}}, plus 5 adversarial tables of 2-5 rows (all-null group, null key, duplicates); b := x==2 (null if x null), s := 'a'/'b' by g (null if g null); unique id k",
         "n_worlds": len(worlds(tier)),
